@@ -140,3 +140,40 @@ Proof.
       by (rewrite skipn_skipn_local; f_equal; lia).
     rewrite firstn_add_skipn. f_equal. lia.
 Qed.
+
+(* ================================================================== gates and layers (circuit_layer.py, quantum_gate.py)
+   TRUSTED representation used by the generated code: a gate object is a value of the model's `gate`, its class is the
+   constructor (IdentityGate = GId, RotationGate = GRot, ControlGate = GCtrl, ControlledRotationGate = GCRot; the
+   abstract ControlledGate has the single concrete subclass ControlledRotationGate).  `qubit_index` = gate_qubit;
+   the field `control_qubit_index` exists on ControlledGate objects only, `controlled_qubit_index` on ControlGate
+   objects only: reading them on another class raises AttributeError. *)
+Definition is_control (g : gate) : bool := match g with GCtrl _ _ => true | _ => false end.
+Definition gate_control_qubit_index (g : gate) : result Z :=
+  match g with GCRot _ c => Ok c | _ => Err "AttributeError"%string end.
+Definition gate_controlled_qubit_index (g : gate) : result Z :=
+  match g with GCtrl _ t => Ok t | _ => Err "AttributeError"%string end.
+(* the two instance attributes that EVQECircuitLayer.__post_init__ assigns (state record of the translated constructor) *)
+Record layer_cache := mkLayerCache { lc_n_parameters : Z; lc_n_controlled : Z }.
+
+(* ------------------------------------------------------------------ checked lemmas *)
+Definition ctl_of_valid (r : result bool) : result (ctl bool unit) :=
+  match r with Ok true => Ok (Next tt) | Ok false => Ok (Ret false) | Err e => Err e end.
+
+(* the loop of EVQECircuitLayer.is_valid from position s on, for ANY loop body that treats one (index, gate) pair like
+   the model's gate_valid_at *)
+Lemma layer_valid_loop (gates : list gate) (body : Z * gate -> unit -> result (ctl bool unit)) :
+  (forall idx g, body (idx, g) tt = ctl_of_valid (gate_valid_at gates idx g)) ->
+  forall (t : list gate) s,
+  py_for (combine (map Z.of_nat (seq s (length t))) t) body tt = ctl_of_valid (gates_valid_from gates (Z.of_nat s) t).
+Proof.
+  intros H. induction t as [|g t IH]; intros s; [reflexivity|].
+  cbn [length seq map combine py_for gates_valid_from]. rewrite H.
+  destruct (gate_valid_at gates (Z.of_nat s) g) as [[|]|e]; cbn [ctl_of_valid bind]; [|reflexivity|reflexivity].
+  rewrite IH. replace (Z.of_nat (S s)) with (Z.of_nat s + 1) by lia. reflexivity.
+Qed.
+
+Lemma sum_ones {A} (l : list A) : py_sum_Z (map (fun _ => 1) l) = Z.of_nat (length l).
+Proof.
+  rewrite py_sum_Z_sumZ. induction l as [|x t IH]; [reflexivity|]. cbn [map sumZ fold_right length] in *.
+  rewrite Nat2Z.inj_succ. unfold sumZ in *. cbn [fold_right]. lia.
+Qed.
